@@ -7,6 +7,8 @@ by blank lines, any line endings, leading/trailing blank lines) is the block str
 -/
 import KlogV.Lemmas.Grammar
 import KlogV.Props.Tables
+import KlogV.Props.Rx.Values
+import KlogV.Props.Rx.Summary
 namespace KlogV.C01
 
 abbrev HasLongDigitRun (l : List Char) : Prop := KlogV.HasLongDigitRun l
